@@ -297,9 +297,17 @@ def build_program(protos, org_raw, with_org, labels_raw):
         elif k == "fcb":
             n = 1 + p[1] % 6 if p[2] % 5 else 1 + p[1] % 40
             s["vals"] = [val_lit(p[3] + j, p[4] + j, 0, 255) for j in range(n)]
+            if p[5] % 3 == 0 and byte_equ:
+                for j in range(0, n, 2):
+                    q = (p[0], p[1] + j, p[2], p[3], j % 2, p[5] + j, p[6] + j, p[7] + j)
+                    s["vals"][j] = val_any(q, 0, 255, False, byte_equ)
         elif k == "fdb":
             n = 1 + p[1] % 5 if p[2] % 5 else 1 + p[1] % 30
             s["vals"] = [val_lit(p[3] + j, p[4] + j, 0, 65535) for j in range(n)]
+            if p[5] % 2 == 0:
+                for j in range(0, n, 2):
+                    q = (p[0], p[1] + j, p[2], p[3], (p[4] + j) % 4, p[5] + j, p[6] + j, p[7] + j)
+                    s["vals"][j] = val_any(q, 0, 65535, True, pos_equ)
         elif k == "fcc":
             n = p[1] % 12 if p[2] % 4 else p[1] % 60
             s["delim"] = '"' if p[3] % 3 else "/"
@@ -330,7 +338,7 @@ def build_program(protos, org_raw, with_org, labels_raw):
     org = max(0, min(org, 65536 - total_max - 32))
     if org < 16:
         for s in stmts:
-            for v in ([s.get("val")] if isinstance(s.get("val"), dict) else []):
+            for v in ([s.get("val")] if isinstance(s.get("val"), dict) else []) + [x for x in s.get("vals", []) if isinstance(x, dict)]:
                 if v.get("sym", "").startswith("L") and v.get("op") == "-":
                     v["op"] = "+"
     # short branch reachability by construction: distance bound from maximal sizes
@@ -366,14 +374,15 @@ small_program = st.builds(build_program, st.lists(_proto, min_size=1, max_size=1
 
 # ------------------------------------------------------------------ reference walk
 
-def data_bytes(s):
+def data_bytes(s, env=None):
     k = s["k"]
     if k == "fcb":
-        return bytes(v["lit"] & 0xFF for v in s["vals"])
+        return bytes(value_of(v, env) & 0xFF for v in s["vals"])
     if k == "fdb":
         out = bytearray()
         for v in s["vals"]:
-            out += bytes([(v["lit"] >> 8) & 0xFF, v["lit"] & 0xFF])
+            n = value_of(v, env)
+            out += bytes([(n >> 8) & 0xFF, n & 0xFF])
         return bytes(out)
     if k == "fcc":
         return s["text"].encode("latin-1")
@@ -472,11 +481,7 @@ def check_layout(program, out, check_meaning=True):
             length = insn.length
             decoded.append(insn)
         else:
-            want = data_bytes(s)
-            length = len(want)
-            if image[off:off + length] != want:
-                return "statement {} ({}): image holds {} expected {}".format(
-                    i, rows[i][2].strip()[:50], image[off:off + length][:12].hex(), want[:12].hex()), None, None
+            length = size_bounds(s)[0]          # data directives have a size that does not depend on symbol values
             decoded.append(None)
         if length:
             col = image[off:off + length].hex().upper()[:10]
@@ -500,6 +505,13 @@ def check_layout(program, out, check_meaning=True):
     extra = set(symtab) - set(env)
     if extra:
         return "symbol table has unexpected entries {}".format(sorted(extra)), None, None
+    for i, s in enumerate(stmts):
+        if s["k"] in ("fcb", "fdb", "fcc", "rmb"):
+            addr, length = layout[i]
+            want = data_bytes(s, env)
+            if image[addr - origin:addr - origin + length] != want:
+                return "statement {} ({}): image holds {} expected {}".format(
+                    i, rows[i][2].strip()[:50], image[addr - origin:addr - origin + length][:12].hex(), want[:12].hex()), None, None
     if check_meaning:
         for i, s in enumerate(stmts):
             if s["k"] not in INSTR_KINDS:
